@@ -768,3 +768,106 @@ pub fn gen_alias_channel(rng: &mut Rng, i: usize) -> AliasCase {
         },
     }
 }
+
+// ------------------------------------------------------------------ histories of copies on one thread
+// Every deep copy (a channel read, a spawn) starts from an empty table of copies: nothing may survive from
+// one copy to the next.  The spawning thread reads heap messages it wrote itself (the same source objects
+// recur), mutates in between, spawns tasks capturing those objects; afterwards every party mutates its own
+// objects and nobody may see anybody else's changes.
+
+pub fn gen_history(rng: &mut Rng) -> AliasCase {
+    let fmt = |v: &Vec<i64>| format!("(A{})", v.iter().map(|x| format!(" {x}")).collect::<String>());
+    let mut a: Vec<i64> = vec![rng.range(0, 9), rng.range(10, 19)];
+    let c0 = rng.range(20, 29);
+    let mut s = String::from(DECLS);
+    s.push_str(ALIAS_DECLS);
+    s.push_str("let ack: channel<bool> = channel()\nlet q: channel<array<int>> = channel()\nlet qt: channel<Two> = channel()\n");
+    s.push_str(&format!("let a = [{}, {}]\nlet t = Two(a, [{c0}])\n", a[0], a[1]));
+    // snapshots held by the spawner: (variable, is_two, p content, q content)
+    let mut snaps: Vec<(String, bool, Vec<i64>, Vec<i64>)> = vec![];
+    let mut reports: Vec<(usize, String)> = vec![];
+    let n_ops = rng.range(3, 6) as usize;
+    let mut have_read = false;
+    let mut have_spawn_after_read = false;
+    let mut k = 100;
+    for i in 0..n_ops {
+        // a read first, and at least one spawn after a read
+        let op = if i == 0 { rng.below(2) } else if i == n_ops - 1 && !have_spawn_after_read { 3 + rng.below(2) } else { rng.below(5) };
+        match op {
+            0 => {
+                s.push_str(&format!("q.write(a)\nlet b{i} = q.read()\n"));
+                snaps.push((format!("b{i}"), false, a.clone(), vec![]));
+                have_read = true;
+            }
+            1 => {
+                s.push_str(&format!("qt.write(t)\nlet u{i} = qt.read()\n"));
+                snaps.push((format!("u{i}"), true, a.clone(), vec![c0]));
+                have_read = true;
+            }
+            2 => {
+                k += 1;
+                s.push_str(&format!("a.push({k})\n"));
+                a.push(k);
+            }
+            3 => {
+                k += 1;
+                s.push_str(&format!(
+                    "let o{i}: channel<string> = channel()\ntask {{\n  a.push({k})\n  let s1 = show_arrint(a)\n  o{i}.write(s1)\n  ack.read()\n}}\n"
+                ));
+                let mut seen = a.clone();
+                seen.push(k);
+                reports.push((i, fmt(&seen)));
+                have_spawn_after_read |= have_read;
+            }
+            _ => {
+                k += 2;
+                s.push_str(&format!(
+                    "let o{i}: channel<string> = channel()\ntask {{\n  t.p.push({k})\n  t.q.push({})\n  let s1 = show_arrint(t.p) .. show_arrint(t.q)\n  o{i}.write(s1)\n  ack.read()\n}}\n",
+                    k + 1
+                ));
+                let mut p = a.clone();
+                p.push(k);
+                reports.push((i, format!("{}{}", fmt(&p), fmt(&vec![c0, k + 1]))));
+                have_spawn_after_read |= have_read;
+            }
+        }
+    }
+    // after all spawns: the spawner mutates every snapshot and the originals
+    let mut z = 500;
+    for (name, two, p, _) in snaps.iter_mut() {
+        z += 1;
+        if *two {
+            s.push_str(&format!("{name}.p.push({z})\n"));
+        } else {
+            s.push_str(&format!("{name}.push({z})\n"));
+        }
+        p.push(z);
+    }
+    z += 1;
+    s.push_str(&format!("a.push({z})\n"));
+    a.push(z);
+    let mut expected = vec![];
+    for (i, _) in &reports {
+        s.push_str(&format!("let r{i} = o{i}.read()\n"));
+    }
+    for (i, r) in &reports {
+        s.push_str(&format!("println(r{i})\n"));
+        expected.push(r.clone());
+    }
+    for (name, two, p, qv) in &snaps {
+        if *two {
+            s.push_str(&format!("println(show_arrint({name}.p) .. show_arrint({name}.q))\n"));
+            expected.push(format!("{}{}", fmt(p), fmt(qv)));
+        } else {
+            s.push_str(&format!("println(show_arrint({name}))\n"));
+            expected.push(fmt(p));
+        }
+    }
+    s.push_str("println(show_arrint(a))\nprintln(show_arrint(t.p))\n");
+    expected.push(fmt(&a));
+    expected.push(fmt(&a));
+    for _ in &reports {
+        s.push_str("ack.write(true)\n");
+    }
+    AliasCase { src: s, class: "history:reads-and-spawns-on-one-thread", expected, model: None }
+}
